@@ -10,3 +10,19 @@
 ; dotted-decimal OID strings: parsed value and well-formedness are functions of the text (cert.OidFromString)
 (declare-fun isOidStr (String) Bool)
 (declare-fun parseOid (String) OidV)
+(declare-fun count (String String) Int)
+(declare-fun splitPart (String String Int) String)     ; k-th piece of strings.Split(s, sep)
+(assert (forall ((s String) (p String)) (! (>= (count s p) 0) :pattern ((count s p)))))
+(declare-fun isInt (String) Bool)
+(declare-fun intval (String) Int)
+; every dot-separated piece from k on is a decimal number that fits an int
+(define-fun-rec allIntFrom ((s String) (k Int) (n Int)) Bool
+  (or (< k 0) (>= k n) (and (isInt (splitPart s "." k)) (allIntFrom s (+ k 1) n))))
+; ---- subject strings (C03): one RDN per KEY=value piece, attribute type by short name or dotted OID
+(declare-fun trimSpace (String) String)
+(declare-fun beforeFirst (String String) String)   ; text before the first occurrence of the separator
+(declare-fun afterFirst (String String) String)    ; text after it
+(define-fun rdnKey ((a String)) String (trimSpace (beforeFirst (trimSpace a) "=")))
+(define-fun rdnVal ((a String)) String (afterFirst (trimSpace a) "="))
+(define-fun rdnOk ((a String)) Bool (and (>= (count (trimSpace a) "=") 1) (or (isShort (rdnKey a)) (isOidStr (rdnKey a)))))
+(define-fun rdnType ((a String)) OidV (ite (isShort (rdnKey a)) (shortOid (rdnKey a)) (parseOid (rdnKey a))))
